@@ -184,6 +184,98 @@ def chainTypes (src : QRec) : List Node → Option (List NodeReport)
     | none => none
     | some r => (chainTypes r.output rest).map (r :: ·)
 
+/-! ### the `is_inference=True` route of the dense / conv branch
+
+```
+if is_inference:
+  weights = qtools_util.get_weights(layer, model_weights_already_quantized)
+  if weight_quantizer.is_po2: weight_quantizer.update_inference_values(weights[0])
+  if bias_quantizer.is_po2:   bias_quantizer.update_inference_values(weights[1])
+```
+`update_inference_values` exists on `PowerOfTwo` only (inherited by `ReluPowerOfTwo`) and writes
+`inference_value_counts = len(set(weights.flatten()))` — none of the fields the type rules read
+(`bits`, `int_bits`, `is_signed`, `max_val_po2`) changes.  The block runs BEFORE
+`if not layer.use_bias: bias_quantizer = None`, so the record made from `get_quantizers()[1]`
+is consulted even for a layer without a bias weight, and `weights[1]` is then out of range. -/
+
+/-- the distinct entries of a list of constants, first occurrence of each value from the right
+    (`set(weights.flatten())`; `0.0 == -0.0` are one element there and one rational here) -/
+def distinctVals : List Rat → List Rat
+  | [] => []
+  | a :: l => if (distinctVals l).contains a then distinctVals l else a :: distinctVals l
+
+/-- `len(set(weights.flatten()))` -/
+def inferenceValueCounts (ws : List Rat) : Int := ((distinctVals ws).length : Int)
+
+/-- `PowerOfTwo.update_inference_values(weights)`: the record (unchanged) and the new
+    `inference_value_counts` -/
+def updateInferenceValues (q : QRec) (ws : List Rat) : QRec × Int := (q, inferenceValueCounts ws)
+
+/-- the constants of one layer as `get_weights` hands them over, and — for a layer built with
+    `use_bias=False` — the record made from the (unused) `get_quantizers()[1]`
+    (`None` ↦ the default intermediate quantizer, which is not po2) -/
+structure InfConsts where
+  wv : List Rat
+  bv : List Rat
+  unusedBias : Option QRec
+  deriving Repr
+
+inductive InfOutcome (α : Type) | ok (a : α) | indexError
+  deriving Repr
+
+/-- what the inference block leaves behind: weight record, its `inference_value_counts`
+    (`-1` = never written), bias record (none when `use_bias=False`), its counts -/
+structure InfLayer where
+  w : QRec
+  wCounts : Int
+  b : Option QRec
+  bCounts : Int
+  deriving Repr
+
+/-- the `if is_inference:` block; `b = none` ⇔ `use_bias=False` -/
+def inferenceBlock (w : QRec) (b : Option QRec) (c : InfConsts) : InfOutcome InfLayer :=
+  let wu : QRec × Int := if w.isPo2 then updateInferenceValues w c.wv else (w, -1)
+  match b with
+  | some bq =>
+    let bu : QRec × Int := if bq.isPo2 then updateInferenceValues bq c.bv else (bq, -1)
+    .ok { w := wu.1, wCounts := wu.2, b := some bu.1, bCounts := bu.2 }
+  | none =>
+    match c.unusedBias with
+    | some u => if u.isPo2 then .indexError          -- `weights[1]` of a one-element list
+                else .ok { w := wu.1, wCounts := wu.2, b := none, bCounts := -1 }
+    | none => .ok { w := wu.1, wCounts := wu.2, b := none, bCounts := -1 }
+
+/-- one node on the inference route: the node the type rules see, and the two counts -/
+def inferNode : Node → InfConsts → InfOutcome (Node × Int × Int)
+  | .layer kind w b shape act ap, c =>
+    match inferenceBlock w b c with
+    | .ok r => .ok (.layer kind r.w r.b shape act ap, r.wCounts, r.bCounts)
+    | .indexError => .indexError
+  | n, _ => .ok (n, -1, -1)
+
+def inferChain : List (Node × InfConsts) → InfOutcome (List Node × List (Int × Int))
+  | [] => .ok ([], [])
+  | (n, c) :: rest =>
+    match inferNode n c with
+    | .indexError => .indexError
+    | .ok (n', wc, bc) =>
+      match inferChain rest with
+      | .indexError => .indexError
+      | .ok (ns, cs) => .ok (n' :: ns, (wc, bc) :: cs)
+
+/-- `QTools(..., is_inference=True)` on a chain: the reports and the per-node counts -/
+def chainTypesInf (src : QRec) (nodes : List (Node × InfConsts)) :
+    InfOutcome (Option (List NodeReport) × List (Int × Int)) :=
+  match inferChain nodes with
+  | .indexError => .indexError
+  | .ok (ns, cs) => .ok (chainTypes src ns, cs)
+
+/-- a cap on the exponents of a po2 record (what an implementation of the TODO "update the
+    quantizer type with min and max of the constant values" would write into `max_val_po2`) -/
+def capPo2 (q : QRec) (m : Rat) : QRec := { q with maxValPo2 := some m }
+
+def ratAbs (v : Rat) : Rat := if v < 0 then -v else v
+
 /-! ### `interface.populate_quantizer`: the integer fields of a JSON entry of `_output_dict` -/
 def populate (q : QRec) : List (String × Int) :=
   if q.isFloat then [("bits", q.bits)]
